@@ -145,6 +145,17 @@ where
     let mut g = Gen::new(pu(params, "gseed"));
     let (tl, th) = if F::NAME == "f32" { (1e-43, 1e-39) } else { (1e-320, 1e-309) };
     let mut w64 = gen_weights(&mut g, tl, th);
+    // extreme ratios: one weight so small against the others that its PROBABILITY is a subnormal number
+    // of the float type (a valid category all the same: ln p_i is finite, sampling may return it)
+    if w64.len() >= 2 && g.bool(1, 5) {
+        let wmax = w64.iter().cloned().fold(0.0f64, f64::max);
+        if (1e-6..=1e6).contains(&wmax) {
+            let i = g.usize(0, w64.len() - 1);
+            if w64[i] != wmax {
+                w64[i] = wmax * if F::NAME == "f32" { g.log_uniform(1e-44, 1e-39) } else { g.log_uniform(1e-321, 1e-309) };
+            }
+        }
+    }
     let mut w: Vec<F> = w64.iter().map(|x| F::of_f64(*x)).collect();
     if w.iter().all(|x| *x == F::zero()) {
         // everything underflowed to zero in this float type: keep one representable positive weight
@@ -155,6 +166,7 @@ where
     o.count("probe_subnormal_weight_sum", (w.iter().fold(F::zero(), |a, b| a + *b) < F::min_positive_value()) as u64);
     let cat = Categorical::new(w.clone());
     let p: Vec<F> = cat.probs.clone();
+    o.count("probe_subnormal_probability", p.iter().any(|x| *x > F::zero() && *x < F::min_positive_value()) as u64);
     // normalisation
     let sum = p.iter().fold(0.0f64, |a, b| a + b.as_f64());
     let eps = F::epsilon().as_f64();
@@ -165,7 +177,9 @@ where
     for i in 0..len {
         let want = w[i].as_f64() / wsum;
         // the library sums the weights in its own float type: up to len roundings in the sum
-        if (p[i].as_f64() - want).abs() > (len as f64 + 8.0) * eps * want.max(1e-300) + 1e-300 || (w[i] == F::zero()) != (p[i] == F::zero()) {
+        // (a subnormal probability is only representable to one spacing of the subnormal range)
+        let sub = F::min_positive_value().as_f64() * eps;
+        if (p[i].as_f64() - want).abs() > (len as f64 + 8.0) * eps * want.max(1e-300) + 1e-300 + sub || ((w[i] == F::zero()) != (p[i] == F::zero()) && !(w[i] != F::zero() && p[i] == F::zero() && want < sub)) {
             o.violate("normalisation", "Categorical::new:proportionality", format!("{}: p[{i}] = {:?} but weight/sum = {want}", F::NAME, p[i]));
             break;
         }
